@@ -111,6 +111,7 @@ def stateJ (s : State) : J :=
   .obj [("registry", optNatJ s.registry), ("studies", .arr (s.studies.map studyJ)),
         ("proposals", .int s.algo.numProposals), ("feedbacks", .int s.algo.numFeedbacks),
         ("fedBack", J.ofNats s.algo.fedBack), ("setups", .int s.algo.setups),
+        ("inv_ok", .bool (checkState s)),
         ("pcs", .arr ((List.range s.nWorkers).map fun i => J.str (reprStr (s.workers i).pc)))]
 
 /-- Runs the log; stops at the first action that is not enabled or whose expectation fails. -/
